@@ -236,13 +236,37 @@ fn children(header_ptr: *mut ObjectHeader, out: &mut Vec<u64>) {
                 push(f);
             }
         }
-        ObjectKind::Channel => {
-            let obj = unsafe { &*(header_ptr as *const ChannelObject) };
-            let data = obj.data.lock().unwrap();
-            for f in data.iter() {
-                push(f);
-            }
+        // a channel's queue is shared between threads and is not part of this thread's object graph
+        ObjectKind::Channel => {}
+    }
+}
+
+/// structural rendering of a value (used to identify channel messages by content)
+pub(super) fn val_show(v: &Value) -> String {
+    match v.1 {
+        ValueTag::Int => format!("{}", v.0 as i64),
+        ValueTag::Float => format!("f{}", v.0),
+        ValueTag::Bool => format!("{}", v.0 != 0),
+        ValueTag::Addr => format!("@{}", v.0),
+        ValueTag::String => {
+            let so = unsafe { &*(v.0 as *const StringObject) };
+            format!("{:?}", so.str)
         }
+        ValueTag::Array => {
+            let o = unsafe { &*(v.0 as *const ArrayObject) };
+            let v: Vec<String> = o.data.iter().map(val_show).collect();
+            format!("[{}]", v.join(","))
+        }
+        ValueTag::Struct => {
+            let o = unsafe { &*(v.0 as *const StructObject) };
+            let v: Vec<String> = o.get_fields().iter().map(val_show).collect();
+            format!("({})", v.join(","))
+        }
+        ValueTag::Variant => {
+            let o = unsafe { &*(v.0 as *const EnumObject) };
+            format!("#{}({})", o.tag, val_show(&o.val))
+        }
+        ValueTag::Channel => "<channel>".to_string(),
     }
 }
 
